@@ -133,12 +133,34 @@ class Ctx:
             exe = os.path.join(self.build_dir, name)
             if os.path.exists(exe):
                 os.unlink(exe)
-            cmd = [CXX] + flags + sources + ['-o', exe] + libs
+            # pseudo flags: --cxx=<compiler> selects another compiler for this job, --optional makes a failure of the job an
+            # `uncovered` entry instead of a framework error (extra build configurations of code that is also built the normal way)
+            cxx = CXX
+            for f in flags:
+                if f.startswith('--cxx='):
+                    cxx = f[6:]
+            flags = [f for f in flags if not f.startswith('--cxx=')]
+            cmd = [cxx] + [f for f in flags if f != '--optional'] + sources + ['-o', exe] + libs
+            if '--optional' in flags:
+                cmd.append('--optional')
+            optional = cmd[-1] == '--optional'
+            if optional:
+                cmd = cmd[:-1]
+            if any(not os.path.exists(x) for x in sources if isinstance(x, str) and x.endswith('.o')):
+                class RR:
+                    returncode, stderr = 1, 'an object this job links was not built'
+                return name, exe, RR(), cmd + (['--optional'] if optional else [])
             r = subprocess.run(cmd, capture_output=True, text=True)
-            return name, exe, r, cmd
+            return name, exe, r, cmd + (['--optional'] if optional else [])
 
         with ThreadPoolExecutor(max_workers=min(NCPU, max(1, len(jobs)))) as ex:
             for name, exe, r, cmd in ex.map(one, jobs):
+                if r.returncode != 0 and cmd and cmd[-1] == '--optional':
+                    first = [l for l in r.stderr.split('\n') if 'error' in l][:1]
+                    self.uncovered.append('optional build %s failed, step skipped: %s' % (name, (first[0] if first else r.stderr[-200:]).strip()[:300]))
+                    continue
+                if cmd and cmd[-1] == '--optional':
+                    cmd = cmd[:-1]
                 if r.returncode != 0:
                     scaled = any(f.startswith('-DVW=') for f in cmd) or any(os.path.basename(x).startswith(('k_', 'm_', 'c0')) and x.endswith('.o') and not os.path.exists(x) for x in cmd)
                     if scaled:
